@@ -71,6 +71,14 @@ def build_det(d):
         m[a2] <<= pyrtl.MemBlock.EnabledWrite(~d_, we2)
         o = pyrtl.Output(2, 'o')
         o <<= m[a2]
+    elif k == 'mem_shared_we':
+        # two write ports of one memory gated by the same enable wire (distinct addresses by construction: a and ~a)
+        m = pyrtl.MemBlock(bitwidth=2, addrwidth=2, name='m', asynchronous=True, max_write_ports=None)
+        a, d_, we = pyrtl.Input(2, 'a'), pyrtl.Input(2, 'd'), pyrtl.Input(1, 'we')
+        m[a] <<= pyrtl.MemBlock.EnabledWrite(d_, we)
+        m[~a] <<= pyrtl.MemBlock.EnabledWrite(~d_, we)
+        o = pyrtl.Output(2, 'o')
+        o <<= m[a]
     elif k == 'mem3':
         # three memories, all given initial contents by concrete_trace(): anything emitted per memory has an order to get wrong
         a, d_, we = pyrtl.Input(2, 'a'), pyrtl.Input(3, 'd'), pyrtl.Input(1, 'we')
@@ -994,7 +1002,8 @@ def run_keys(case, ob, site):
 def cases(tier, seed):
     out = [{'k': 'keys'}]
     dets = [{'fam': 'DET', 'kind': 'small'}, {'fam': 'DET', 'kind': 'bad_names'}, {'fam': 'DET', 'kind': 'tie_names', 'names': ['a1', 'a01']},
-            {'fam': 'DET', 'kind': 'mem'}, {'fam': 'DET', 'kind': 'case_names'}, {'fam': 'DET', 'kind': 'mem3'}]
+            {'fam': 'DET', 'kind': 'mem'}, {'fam': 'DET', 'kind': 'case_names'}, {'fam': 'DET', 'kind': 'mem3'},
+            {'fam': 'DET', 'kind': 'mem_shared_we'}]
     for d in dets:
         for e in EMITTERS:
             if e == 'firrtl' and d['kind'] in ('bad_names', 'mem'):
